@@ -30,7 +30,12 @@ RULE = ("kernels: exhaustive windows around every 400-year era boundary, around 
         "m 0..14/254/255 x d 0..33/254/255 x weekday 0..8 x index 0..7/200, year_month_day +/- months/years over boundary years with "
         "end-of-month days, year_month_day_last / year_month_weekday(_last) for every month x weekday x index 0..7 of boundary + random "
         "years, year_month_weekday <-> sys_days on a stride sweep + era boundaries + whole years, ==/!= of every type on near-equal "
-        "tuples, every operator/ spelling; three harness builds (g++ -O1, g++ ASan+UBSan, clang++ -O2); "
+        "tuples, every operator/ spelling; review round: stored values that are not ok() everywhere (weekday 7..255 in + / - / ++ / -- "
+        "with the reference on, month - month / weekday - weekday / year_month(+day,_last,_weekday) + months / operator sys_days of the "
+        "_weekday and _last types on months 0,13..255, weekdays 7..255, year -32768: reference off, model tie in the sanitizer build), "
+        "year_month + months over the whole +-786000 range that keeps the year representable and up to the int32 limits, weekday of the "
+        "last four int32 day counts, year_month_weekday{sys_days} outside the supported years; four harness builds (g++ -O1, "
+        "g++ ASan+UBSan, clang++ -O2, release build without contract checks); "
         "non-trivial = distinct case line whose impl outcome is ok")
 
 TRUSTED_BASE = ["reference leg: libstdc++ 12 std::chrono calendar types on the same inputs"]
@@ -78,7 +83,7 @@ def gen(tier, rng):
         if z < DAY_HI:
             out.append(f"next_day {z}")
     # weekday over a wider int range
-    for z in [-2147483648, -2147483647, 2147483643, 2147483642, -5, -4, -3, 0] + [rng.randint(-2**31, 2**31 - 5) for _ in range(500)]:
+    for z in [-2147483648, -2147483647, 2147483647, 2147483646, 2147483645, 2147483644, 2147483643, 2147483642, -5, -4, -3, 0] + [rng.randint(-2**31, 2**31 - 1) for _ in range(500)]:
         out.append(f"weekday {z}")
     # --- dates
     years = [-32768, -32767, -32766, -400, -100, -4, -1, 0, 1, 4, 100, 400, 1600, 1900, 1970, 2000, 2023, 2024, 2100, 32766, 32767]
